@@ -49,8 +49,16 @@ def pick_w(rng: random.Random, weights: Dict[str, float]) -> str:
     return items[-1][0]
 
 
-def _is_trigger(sim: dict, attr: str) -> bool:
-    kind = sim["ins"].get(attr)
+def _ins_of(sim: dict, eid: str) -> dict:
+    return sim.get("ins2", sim["ins"]) if sim.get("ent_model", {}).get(eid, "M") == "N" else sim["ins"]
+
+
+def _outs_of(sim: dict, eid: str) -> dict:
+    return sim.get("outs2", sim["outs"]) if sim.get("ent_model", {}).get(eid, "M") == "N" else sim["outs"]
+
+
+def _is_trigger(sim: dict, attr: str, eid: str = "e0") -> bool:
+    kind = _ins_of(sim, eid).get(attr)
     if kind is None:      # any_inputs: undeclared attribute, default by type (hybrid: non-trigger)
         return sim["type"] == "event-based"
     return kind == "trigger"
@@ -107,6 +115,13 @@ def gen_scenario(seed: int, profile: Optional[dict] = None) -> dict:
                "ins": ins, "outs": outs, "beh": beh}
         if rng.random() < prof.get("p_any_inputs", 0.12):
             sim["any_inputs"] = True     # accepts every attribute name as input
+        if typ == "hybrid" and len(ents) >= 2 and rng.random() < prof.get("p_second_model", 0.5):
+            # the last entity is an instance of a second model with the same attribute names but other kinds
+            flip_i = {"trigger": "nontrigger", "nontrigger": "trigger"}
+            flip_o = {"persistent": "nonpersistent", "nonpersistent": "persistent"}
+            sim["ins2"] = {a: (flip_i[k] if rng.random() < 0.6 else k) for a, k in ins.items()}
+            sim["outs2"] = {a: (flip_o[k] if rng.random() < 0.6 else k) for a, k in outs.items()}
+            sim["ent_model"] = {ents[-1]: "N"}
         sims.append(sim)
     # connections ---------------------------------------------------------
     order = list(range(n))
@@ -144,8 +159,8 @@ def gen_scenario(seed: int, profile: Optional[dict] = None) -> dict:
         slot = (a["sid"], se, b["sid"], de, da)
         if slot in used_slots and not prof.get("wild"):
             continue
-        src_pers = a["outs"][sa] == "persistent"
-        dst_trig = _is_trigger(b, da)
+        src_pers = _outs_of(a, se)[sa] == "persistent"
+        dst_trig = _is_trigger(b, da, de)
         c: Dict[str, Any] = {"src": a["sid"], "se": se, "sa": sa, "dst": b["sid"], "de": de, "da": da}
         if kind == "shift":
             c["shift"] = rng.randint(1, prof["max_shift"])
@@ -179,8 +194,8 @@ def gen_scenario(seed: int, profile: Optional[dict] = None) -> dict:
         for c in cands:
             a = next(s for s in sims if s["sid"] == c["src"])
             b = next(s for s in sims if s["sid"] == c["dst"])
-            src_pers = a["outs"][c["sa"]] == "persistent"
-            dst_trig = _is_trigger(b, c["da"])
+            src_pers = _outs_of(a, c["se"])[c["sa"]] == "persistent"
+            dst_trig = _is_trigger(b, c["da"], c["de"])
             if not src_pers and not dst_trig:
                 continue
             c.pop("weak", None)
@@ -210,7 +225,7 @@ def gen_scenario(seed: int, profile: Optional[dict] = None) -> dict:
     # future output times only where all connected outputs are non-persistent
     for s in sims:
         outs_conn = [(c["se"], c["sa"]) for c in conns if c["src"] == s["sid"]]
-        if s["type"] != "time-based" and outs_conn and all(s["outs"][a] == "nonpersistent" for _, a in outs_conn):
+        if s["type"] != "time-based" and outs_conn and all(_outs_of(s, e_)[a] == "nonpersistent" for e_, a in outs_conn):
             if rng.random() < prof["p_future"]:
                 s["beh"]["p_future"] = rng.choice([0.2, 0.5])
         if s["type"] == "event-based" and rng.random() < prof["p_initial_event"]:
